@@ -54,7 +54,7 @@ def oracle_all(hist: dict, r: dict, which: set) -> list:
         after = e["after"]
         places, msgs = after["places"], after["msgs"]
         op = e["op"]
-        where = {"step": n, "op": {k: v for k, v in e.items() if k not in ("after", "params", "got")}}
+        where = {"step": n, "op": {k: v for k, v in e.items() if k not in ("after", "params", "got", "before")}}
         t_end = e.get("t_return", e["t"])
         if op == "put" and e["applied"]:
             live[e["id"]] = 1
@@ -81,7 +81,7 @@ def oracle_all(hist: dict, r: dict, which: set) -> list:
                 pl = places.get(i, [])
                 if op == "nack" and [p[0] for p in pl] != ["dead"]:
                     bad.append(("nack_not_dead_lettered", f"after nack the message is in {pl}", where))
-                if op == "reject":
+                if op == "reject" and origin.get(i, 1) is not None:
                     o = origin.get(i, ("simple", None))
                     ok = len(pl) == 1 and pl[0][0] == o[0] and (o[0] != "delayed" or pl[0][2] == o[1])
                     if not ok:
@@ -112,6 +112,14 @@ def oracle_all(hist: dict, r: dict, which: set) -> list:
                     # requeue next to the holder's finish: well-behavedness is broken by construction (the message was
                     # already returned when the requeue ran), the id may legitimately be present twice
                     live.pop(i)
+        elif op == "finish_concurrent":
+            # finish() of consumer f while another consumer was inside consume(): what f held goes back, nothing else moves
+            for i in e["returned"]:
+                holder.pop(i, None)
+            if ("C14" in which or "C01" in which) and e["took_from_others"]:
+                bad.append(("finish_takes_foreign_message", f"finish of consumer {e['c']}, running while consumer "
+                            f"{e['concurrent_with_consume_of']} was taking a message, removed {e['took_from_others']} which it did not hold",
+                            where))
         elif op == "finish":
             for i in e["returned"]:
                 holder.pop(i, None)
@@ -124,7 +132,7 @@ def oracle_all(hist: dict, r: dict, which: set) -> list:
                 for i in e["returned"]:
                     o = origin.get(i, ("simple", None))
                     pl = places.get(i, [])
-                    if "C01" in which and not (len(pl) == 1 and pl[0][0] == o[0]):
+                    if "C01" in which and o is not None and not (len(pl) == 1 and pl[0][0] == o[0]):
                         bad.append(("finish_not_to_origin", f"taken from {o}, after finish in {pl}", where))
         e2 = dict(e, cspec=cspec)
         for c, i, t, cat in deliveries(e2):
@@ -132,8 +140,10 @@ def oracle_all(hist: dict, r: dict, which: set) -> list:
             if "C14" in which and i in holder:
                 bad.append(("delivered_while_held", f"message {i} delivered to consumer {c} while held by consumer {holder[i]}", where))
             holder[i] = c
-            pp = prev_places.get(i, [("simple", None, None)])
+            pp = (e.get("before") or prev_places).get(i, [("simple", None, None)])
             origin[i] = ("simple", None) if cat == 0 else (("dead", None) if cat == 2 else ("delayed", pp[0][2]))
+            if cat == 1 and pp[0][0] != "delayed":
+                origin[i] = None      # returned by a concurrent finish and taken again within one op: due key not observed
             if cat == 0:
                 if "C05" in which and due.get(i) is not None and t // 1000 < due[i] // 1000:
                     bad.append(("delivered_early", f"message {i} due at {due[i]} handed to a normal consumer at {t}", where))
